@@ -806,7 +806,20 @@ func c20builtin(c *core.Ctx) {
 	}
 }
 
+func c20poison(s avro.Schema, typ reflect.Type, omit bool) (avro.Codec, error) {
+	return nil, fmt.Errorf("builder registered for a pointer type was consulted for %s", typ)
+}
+
+var c20poisoned bool
+
 func runC20(c *core.Ctx, i int) {
+	if !c20poisoned {
+		c20poisoned = true
+		// registrations for pointer types of types that have no registration of their own, and of library types
+		for _, t := range []reflect.Type{reflect.TypeOf((*UInt)(nil)), reflect.TypeOf((*UStruct)(nil)), reflect.TypeOf((*int64)(nil)), reflect.TypeOf((*string)(nil))} {
+			avro.Register(t, c20poison)
+		}
+	}
 	if c20ks == nil {
 		_ = lib.SchemaFor
 		c20ks = c20kinds()
@@ -849,6 +862,9 @@ func runC20(c *core.Ctx, i int) {
 		c20gen++
 		latest = c20gen
 		c20register(k, latest)
+		// a registration for the pointer type is a registration for another type: it governs nothing here (the
+		// library strips pointers before it consults the registry) and must not disturb T's own
+		avro.Register(reflect.PointerTo(k.rt), c20poison)
 		if order == 1 {
 			regSchema()
 		}
